@@ -110,6 +110,27 @@ def window_rows(inp, which, fields):
     return rows
 
 
+def window_equal(pc, w1, w2):
+    """two window terms denote the same bytes under pc (same base, provably equal bounds)"""
+    if w1 == w2:
+        return True
+
+    def parts(w):
+        if w[0] == 'slice':
+            return w[1], w[2], w[3]
+        return w, I(0), T.mk_len(w)
+    b1, lo1, hi1 = parts(w1)
+    b2, lo2, hi2 = parts(w2)
+    return b1 == b2 and solver.entails(pc, T.eq0(T.sub(lo1, lo2))) and solver.entails(pc, T.eq0(T.sub(hi1, hi2)))
+
+
+def fields_call(t):
+    for x in T.subterms(t):
+        if x[0] == 'call' and x[1] == 'abs:fields':
+            return x
+    return None
+
+
 def check_window(ctx, R, rule, which, only=None):
     m = model(ctx, R)
     p, ev, outs = m.window_outs(which)
@@ -123,11 +144,31 @@ def check_window(ctx, R, rule, which, only=None):
         if only and not any(r['name'].startswith(o) for o in only):
             continue
         hit = 0
-        for o in outs:
-            if not solver.sat(list(o['pc']) + r['cond']):
+        for o0 in outs:
+            if not solver.sat(list(o0['pc']) + r['cond']):
                 continue
+            # a prefix slice that provably covers the whole input is the input: write both sides the same way before comparing
+            both = list(o0['pc']) + r['cond']
+            sub_ = {}
+            for t0 in both + [o0['ret']] + ([r['win']] if r['win'] is not None else []):
+                for t in T.subterms(t0):
+                    if t[0] == 'slice' and t[1] == inp and t[2] == I(0) and t not in sub_ and solver.entails(both, T.eq0(T.sub(t[3], T.mk_len(inp)))):
+                        sub_[t] = inp
+            o = o0
+            rr = r
+            if sub_:
+                o = dict(o0, pc=[T.rebuild(a, sub_) for a in o0['pc']], ret=T.rebuild(o0['ret'], sub_))
+                rr = dict(r, cond=[T.rebuild(a, sub_) for a in r['cond']], win=T.rebuild(r['win'], sub_) if r['win'] is not None else None,
+                          ret=r['ret'] if isinstance(r['ret'], str) else T.rebuild(r['ret'], sub_))
+                if not solver.sat(list(o['pc']) + rr['cond']):
+                    continue
+            r_saved, r = r, rr
             hit += 1
             found = o['ret']
+            fc = fields_call(found)
+            if fc is not None and r['win'] is not None and fc[2][0] != r['win'] and window_equal(list(o['pc']) + r['cond'], fc[2][0], r['win']):
+                # the same window written differently (e.g. input instead of input[..len]): compare modulo that
+                found = T.rebuild(found, {fc: ('call', 'abs:fields', (r['win'],))})
             if r['ret'] == 'wrap':
                 # bytes entry: fields(window) with errors wrapped: result is map_err(Parse) of abs:fields(win)
                 call = ('call', 'abs:fields', (r['win'],))
@@ -148,6 +189,7 @@ def check_window(ctx, R, rule, which, only=None):
             n += 1
             if ok and hit == 1 and len(R.samples) < 8:
                 R.sample({'rule': rule, 'entry': p, 'case': r['name'], 'expected': exp, 'found': T.short(found)})
+            r = r_saved
         R.inst(rule, 'window/%s/%s/realised' % (which, r['name']), hit > 0, expected='some outcome', found=str(hit), entry=p, nontrivial=False)
     # every outcome is covered by a row
     for o in outs:
